@@ -680,9 +680,123 @@ def check_authz(ctx, cases):
     return classes, list(zip(cases, impl))
 
 
+# ------------------------------------------------------------------------------------------------ (d) TLS configuration through the C ABI
+def hx(t):
+    return t.encode().hex().upper() or '-'
+
+
+def tls_spec_call(kv):
+    """the Rust API call the C configuration must be equivalent to (independent reading of the documented fields)"""
+    pw = bytes.fromhex(kv['pw']).decode() if kv['pw'] != '-' else ''
+    rpw = None if pw == '' else pw
+    if kv['side'] != 'client':
+        return ('TlsServerConfig::new', None, rpw, {'12': 'V1_2', '13': 'V1_3'}[kv['min']], {'ca': 'AuthorityBased', 'ss': 'SelfSigned'}[kv['mode']])
+    dns = bytes.fromhex(kv['dns']).decode() if kv['dns'] != '-' else ''
+    if kv['mode'] == 'ss':
+        return ('self_signed', None, rpw, {'12': 'V1_2', '13': 'V1_3'}[kv['min']], None)
+    # dns_name is the expected name verbatim; only "*" TOGETHER WITH allow_server_name_wildcard disables name verification
+    return ('full_pki', None if (kv['wild'] == '1' and dns == '*') else dns, rpw, {'12': 'V1_2', '13': 'V1_3'}[kv['min']], None)
+
+
+def gen_tls_cases():
+    cases = []
+    for mode in ('ca', 'ss'):
+        for dns in ('*', 'test.com', 'bad name!', ''):
+            for wild in '01':
+                for pw in ('', 'secret'):
+                    for mn in ('12', '13'):
+                        for files in ('ok', 'noca', 'nocert', 'nokey'):
+                            cases.append(f'side=client mode={mode} dns={hx(dns)} wild={wild} pw={hx(pw)} min={mn} files={files}')
+    for side in ('server', 'serverauthz'):
+        for mode in ('ca', 'ss'):
+            for pw in ('', 'secret'):
+                for mn in ('12', '13'):
+                    for files in ('ok', 'noca', 'nocert', 'nokey'):
+                        cases.append(f'side={side} mode={mode} pw={hx(pw)} min={mn} files={files}')
+    return cases
+
+
+TLS_PRE = '''Local Open Scope string_scope.
+Definition show_opt (o : option string) : string := match o with None => "none" | Some s => "some:" ++ s end.
+Definition show_tls_call (c : option tls_call) : string :=
+  match c with
+  | None => "UNKNOWN"
+  | Some c => tc_ctor c ++ "|" ++ show_opt (tc_name c) ++ "|" ++ show_opt (tc_password c) ++ "|" ++ tc_min c ++ "|" ++ show_opt (tc_mode c) ++ "|" ++ show_list (fun s => s) "," (tc_files c)
+  end.
+Definition run_tls (x : bool * (ffi_certificate_mode * string * bool * string * ffi_min_tls_version)) : string :=
+  let '(server, (mode, dns, wild, pw, mn)) := x in
+  if server then show_tls_call (ffi_tls_server_call {| cs_mode := mode; cs_password := pw; cs_min := mn |})
+  else show_tls_call (ffi_tls_client_call {| cc_mode := mode; cc_dns_name := dns; cc_wildcard := wild; cc_password := pw; cc_min := mn |}).'''
+
+
+def check_tls_config(ctx, cases):
+    lines, specs = [], []
+    for c in cases:
+        kv = dict(t.split('=', 1) for t in c.split())
+        kv.setdefault('dns', '-')
+        kv.setdefault('wild', '0')
+        ctor, name, pw, mn, mode = tls_spec_call(kv)
+        specs.append((kv, ctor, name, pw, mn, mode))
+        lines.append(c + f' rname={"none" if name is None else hx(name)} rpw={"none" if pw is None else hx(pw)}')
+    impl = ctx.harness('ffi_tlscfg', lines, args=[vlib.REPO], timeout=600)
+    coq_str = lambda t: '"' + t.replace('"', '""') + '"'
+    terms = []
+    for kv, *_ in specs:
+        dns = bytes.fromhex(kv['dns']).decode() if kv['dns'] != '-' else ''
+        pw = bytes.fromhex(kv['pw']).decode() if kv['pw'] != '-' else ''
+        terms.append(f'({vlib.coq_bool(kv["side"] != "client")}, ({"FCM_SelfSigned" if kv["mode"] == "ss" else "FCM_AuthorityBased"}, {coq_str(dns)}, '
+                     f'{vlib.coq_bool(kv["wild"] == "1")}, {coq_str(pw)}, {"FTV_V13" if kv["min"] == "13" else "FTV_V12"}))')
+    model = model_eval(ctx, ['Base.Show', 'Gen.FfiTables', 'Spec.FfiSpec', 'Model.FfiTls'], 'run_tls', terms,
+                       case_type='bool * (ffi_certificate_mode * string * bool * string * ffi_min_tls_version)', preamble=TLS_PRE, per_shard=200)
+    bad = 0
+    classes = {}
+    if any(mo == 'UNKNOWN' for mo in model):
+        ctx.oblige('tls-config-model-knows-the-conversion', False, 'a regenerated row of the TLS configuration conversion (Gen/FfiTables.v tls_client_* / tls_server_*) has a shape the model does not interpret')
+        model = [None if mo == 'UNKNOWN' else mo for mo in model]
+    for c, i, (kv, ctor, name, pw, mn, mode), mo in zip(cases, impl, specs, model):
+        m = re.fullmatch(r'ffi:(\S+) rust:(\S+)', i)
+        if not m:
+            bad += 1
+            ctx.violation('harness', f'{c}: {i}', {'cases': [['tlscfg', c]], 'impl': i}, no_failing_input=True)
+            continue
+        ffi, rust = m.groups()
+        want = {'BadConfig': 'BadTlsConfig'}.get(rust, rust)
+        k = f'{kv["side"]}.{rust}'
+        classes[k] = classes.get(k, 0) + 1
+        dns = bytes.fromhex(kv['dns']).decode() if kv['dns'] != '-' else ''
+        shown = (f'certificate_mode={"self_signed" if kv["mode"] == "ss" else "authority_based"}, ' + (f'dns_name={dns!r}, allow_server_name_wildcard={kv["wild"] == "1"}, ' if kv['side'] == 'client' else '') +
+                 f'password={"empty" if kv["pw"] == "-" else "non-empty"}, min_tls_version={kv["min"]}, files={kv["files"]}')
+        call = f'{ctor}(' + (f'{"None" if name is None else "Some(" + repr(name) + ")"}, ' if ctor == 'full_pki' else '') + f'.., password={"None" if pw is None else "Some(..)"}, {mn}' + (f', {mode}' if mode else '') + ')'
+        fn = {'client': 'rodbus_client_channel_create_tls', 'server': 'rodbus_server_create_tls', 'serverauthz': 'rodbus_server_create_tls_with_authz'}[kv['side']]
+        if kv['side'] == 'client' and kv['mode'] == 'ca' and dns == '*' and kv['wild'] == '0' and rust != 'InvalidDnsName':
+            bad += 1
+            ctx.violation('rust-api-unexpected.full_pki-star', f'{c}: TlsClientConfig::full_pki(Some("*"), ..) answered {rust}; the reading "* is not a server name" no longer holds',
+                          {'cases': [['tlscfg', c]], 'impl': i}, no_failing_input=True)
+        elif ffi != want:
+            bad += 1
+            if bad <= 4:
+                ctx.violation(f'tls-config-not-passed-through.{kv["side"]}', f'{fn} with {shown} returns {ffi}; the corresponding Rust API call {call} returns {rust}'
+                              + (' - the channel exists with server name verification switched off although allow_server_name_wildcard is false' if ffi == 'Ok' and kv['side'] == 'client' and dns == '*' and kv['wild'] == '0' else ''),
+                              {'cases': [['tlscfg', c]], 'impl': i, 'spec': f'ffi:{want} rust:{rust}', 'model': mo})
+        elif mo is not None:
+            want_model = f'{ctor}|{"none" if name is None else "some:" + name}|{"none" if pw is None else "some:" + pw}|{mn}|{"none" if mode is None else "some:" + mode}|peer_cert_path,local_cert_path,private_key_path'
+            if mo != want_model:
+                bad += 1
+                if bad <= 4:
+                    ctx.violation('tls-config-model-differs-from-impl', f'{c}: model call {mo}, Spec call {want_model} (the implementation agrees with the Spec)',
+                                  {'cases': [['tlscfg', c]], 'impl': i, 'spec': want_model, 'model': mo}, no_failing_input=True)
+    ctx.oblige('correspondence:tls-config-c-abi-vs-rust-api', bad == 0, f'{bad} disagreements on {len(cases)} configurations')
+    if not ctx.replay:
+        need = ['client.Ok', 'client.InvalidDnsName', 'client.BadConfig', 'server.Ok', 'server.BadConfig', 'serverauthz.Ok']
+        missing = [k for k in need if classes.get(k, 0) < 2]
+        if missing:
+            ctx.oblige('tls-config-grid-reaches-expected-classes', False, f'{missing} {classes}')
+    return classes, list(zip(cases, impl))
+
+
 def run(ctx):
     ctx.translate(['FfiTables.v'])
-    models_ok = ctx.build_models(['Base.Show', 'Model.Ffi', 'Spec.FfiSpec', 'Model.FfiWire'])
+    models_ok = ctx.build_models(['Base.Show', 'Model.Ffi', 'Spec.FfiSpec', 'Model.FfiWire', 'Model.FfiTls'])
     ctx.prove()
     if ctx.tier == 'thorough':
         ctx.coqchk()
@@ -694,7 +808,9 @@ def run(ctx):
         server_cases = [c[1] for c in ctx.replay['cases'] if c[0] == 'server']
         client_cases = [c[1] for c in ctx.replay['cases'] if c[0] == 'client']
         authz_cases = [c[1] for c in ctx.replay['cases'] if c[0] == 'authz']
+        tls_cases = [c[1] for c in ctx.replay['cases'] if c[0] == 'tlscfg']
     else:
+        tls_cases = gen_tls_cases()
         server_cases = gen_server_cases(ctx, thorough)
         client_cases = gen_client_cases(ctx, thorough)
         authz_cases = gen_authz_cases(ctx, thorough)
@@ -707,6 +823,9 @@ def run(ctx):
     ac, a_samples = {}, []
     if authz_cases:
         ac, a_samples = check_authz(ctx, authz_cases)
+    tc, t_samples = {}, []
+    if tls_cases:
+        tc, t_samples = check_tls_config(ctx, tls_cases)
     n_sys, sys_classes, sys_samples = p5_system.check_system(ctx, 'write', 1500 if ctx.quick() else 12000, 'writes')
     if not ctx.replay:
         need = ['exception-standard', 'exception-raw', 'timeout', 'bad-response', 'bad-frame', 'io', 'ok', 'no-connection', 'shutdown', 'shutdown-queued', 'queue-full', 'states']
@@ -714,11 +833,11 @@ def run(ctx):
         if missing:
             ctx.oblige('generator-reaches-expected-classes', False, str(missing))
     ctx.coverage.update({
-        'evaluations': len(server_cases) + ncalls + len(authz_cases) + n_sys,
+        'evaluations': len(server_cases) + ncalls + len(authz_cases) + len(tls_cases) + n_sys,
         'distinct_nontrivial': len(set(server_cases)) + len(set(client_cases)) + len(set(authz_cases)),
         'rule': 'server half: one case = (write kind, callback set/unset, WriteResult success/exception/raw, address, values) run against a live C-ABI server and a live Rust API server; client half: one scenario = (scripted peer behaviour selected by the start address: exception code 0..255 / silent / malformed / bad MBAP / close / correct reply; or no connection / runtime shutdown / queue overfill / parameter validation) x one of the eight requests, run through the C ABI and through the Rust API; TLS+authz: (server api, client api, request, handler decision allow/deny/unset, unit, range) over a real TLS session with the role-bearing client certificate; every case makes a real request, so all are non-trivial; distinct by case line',
         'samples': [list(x) for x in s_samples[:3]] + [list(x) for x in c_samples[:2]] + [list(x) for x in c_samples[-6:-3]] + [list(x) for x in a_samples[:2]],
-        'input_classes': {'server': sc, 'client': cc, 'tls_authz': ac, 'system_wire_replies': sys_classes},
+        'input_classes': {'server': sc, 'client': cc, 'tls_authz': ac, 'tls_config': tc, 'system_wire_replies': sys_classes},
         'system_wire_scenarios': n_sys,
         'exhaustive': False,
         'c_abi_client_calls': ncalls,
